@@ -88,6 +88,8 @@ Definition cmpop_eqb (a b : cmpop) : bool :=
    (utils.is_iterable: str is NOT iterable) *)
 Definition elements (v : val) : list val :=
   match v with VA a => [VA a] | VTup l => map VA l end.
+Definition atoms_of (v : val) : list atom :=
+  match v with VA a => [a] | VTup l => l end.
 
 (* ---- heap: object -> field -> value (attribute access, [k], zero-argument methods are pure) ---- *)
 Definition heap := list (list val).
